@@ -137,7 +137,13 @@ def get_type_graph(t: type) -> graphlib.TopologicalSorter[TypeNode]:
             # We detected a cyclic type,
             #   wrap in a ForwardRef and don't add it to the stack
             #   This will terminate this edge to prevent infinite cycles.
-            if is_visited and can_be_cyclic:
+            #   A revisited subscripted generic or union is not a cycle by itself: it has no
+            #   name a reference could resolve to (its parameters would be lost), so we expand
+            #   it again and let the cycle (if any) be cut at the named type inside it.
+            is_structural = inspection.issubscriptedgeneric(
+                child
+            ) or inspection.isuniontype(child)
+            if is_visited and can_be_cyclic and not is_structural:
                 qualname = inspection.qualname(child)
                 *rest, refname = qualname.split(".", maxsplit=1)
                 is_argument = var is not None
